@@ -688,7 +688,10 @@ func (x *fx) applyContract(c2 *Contract, f *ssa.Function, sig *types.Signature, 
 		return pm[n]
 	}
 	envPost.old = envPre
-	for _, cl := range c2.Ensures {
+	for k, cl := range c2.Ensures {
+		if savedC.Ignore[name+"."+clauseLabel(cl, k)] {
+			continue // `ignore CALLEE.label`: verified without this assumption
+		}
 		// a postcondition that mentions a local of the callee is checked inside the
 		// callee only; it tells the caller nothing (skipped: fewer assumptions)
 		var e string
